@@ -25,6 +25,29 @@ CHECK_DEADLOCK FALSE
 """
 
 
+
+
+LIB_RAISED = []
+
+
+def _run_get(s, coro):
+    """a refresh the harness starts on the client's structure: an exception out of the library's own install is recorded
+    (and reported as a verdict by run()); the history goes on"""
+    try:
+        return s.run(coro)
+    except env.MachineryError:
+        raise
+    except Exception as e:  # noqa
+        LIB_RAISED.append(f"{type(e).__name__}: {e}"[:200])
+        return False
+
+def _sim_write(sim_struct, pos, data):
+    """the spa's own block changes (the harness plays the spa's firmware): written without going through the
+    simulator-side items, whose decoding is not what this property is about"""
+    blk = sim_struct.status_block
+    data = bytes(data)
+    sim_struct.set_status_block(blk[:pos] + data + blk[pos + len(data):])
+
 def _gen_message(rng, hot, big=False):
     n = rng.choice([0, 1, 1, 1, 2, 2, 3, 5, 7])
     if big:
@@ -99,7 +122,7 @@ def _history_async(rng, n_msgs, rank, p_msg=0.62):
             settle()
             nsent = len(tr.sent)
             for pos, data in ch:
-                sim_struct.replace_status_block_segment(pos, data)
+                _sim_write(sim_struct, pos, data)
             ntap = len(tap.log)
             s.inject(s.peer.push_changes(s.client_parms(), ch))
             s.advance(rng.choice([0.11, 0.25, 0.5]))
@@ -128,7 +151,7 @@ def _history_async(rng, n_msgs, rank, p_msg=0.62):
 
         def do_get(off, ln):
             settle()
-            ok = s.run(spa.struct.get(
+            ok = _run_get(s, spa.struct.get(
                 spa._protocol,
                 lambda: GeckoStatusBlockProtocolHandler.request(
                     spa._protocol.get_and_increment_sequence_counter(False), off, ln, parms=spa.sendparms)))
@@ -158,12 +181,12 @@ def _history_async(rng, n_msgs, rank, p_msg=0.62):
                 if kind == "deliver" and transport is tr and b"STATV" in data and not st_["done"]:
                     st_["done"] = True
                     for pos, d in ch:
-                        sim_struct.replace_status_block_segment(pos, d)
+                        _sim_write(sim_struct, pos, d)
                     s.inject(s.peer.push_changes(s.client_parms(), ch), delay=0.001)
 
             s.net.s2c, s.net.on_event = s2c, on_ev
             try:
-                ok = s.run(spa.struct.get(
+                ok = _run_get(s, spa.struct.get(
                     spa._protocol,
                     lambda: GeckoStatusBlockProtocolHandler.request(
                         spa._protocol.get_and_increment_sequence_counter(False), off, ln, parms=spa.sendparms)))
@@ -222,12 +245,12 @@ def _history_async(rng, n_msgs, rank, p_msg=0.62):
                 if kind == "deliver" and transport is tr and c[:5] == b"STATV" and c[5] == nseg - 2 and not st_["done"]:
                     st_["done"] = True
                     for p_, d_ in ch:
-                        sim_struct.replace_status_block_segment(p_, d_)
+                        _sim_write(sim_struct, p_, d_)
                     s.inject(s.peer.push_changes(s.client_parms(), ch), delay=0.001)
 
             s.net.s2c, s.net.on_event = s2c, on_ev
             try:
-                ok = s.run(spa.struct.get(
+                ok = _run_get(s, spa.struct.get(
                     spa._protocol,
                     lambda: GeckoStatusBlockProtocolHandler.request(
                         spa._protocol.get_and_increment_sequence_counter(False), off, ln, parms=spa.sendparms)))
@@ -274,7 +297,7 @@ def _history_async(rng, n_msgs, rank, p_msg=0.62):
             nsent, ntap = len(tr.sent), len(tap.log)
             lim = max(4, spa.log_class.begin - 2)
             ch = [(rng.randrange(0, lim), bytes([rng.randrange(256), rng.randrange(256)]))]
-            sim_struct.replace_status_block_segment(*ch[0])
+            _sim_write(sim_struct, *ch[0])
             s.inject(s.peer.push_changes(s.client_parms(), ch))
             for _ in range(60):
                 if any(e["k"] == "pop" and "Partial" in e["by"] for e in tap.log[ntap:]):
@@ -309,7 +332,7 @@ def _history_async(rng, n_msgs, rank, p_msg=0.62):
                 ch = [(pos, bytes([rng.randrange(256), rng.randrange(256)]))]
                 if chs and rng.random() < 0.3:
                     ch = list(chs[-1])        # the spa reports the same word again: a byte-identical datagram
-                sim_struct.replace_status_block_segment(*ch[0])
+                _sim_write(sim_struct, *ch[0])
                 chs.append(ch)
                 s.inject(s.peer.push_changes(s.client_parms(), ch), delay=0.0005 * j)
             for _ in range(K * 4 + 60):
@@ -337,52 +360,64 @@ def _history_async(rng, n_msgs, rank, p_msg=0.62):
                 ev.append(msg(j, []))
                 j += 1
 
+        aborted = ""
         for i in range(n_msgs):
-            r = rng.random()
-            if i == 8:
-                do_burst(rng.choice([36, 48]))
-            elif i in (14, 21):
-                ln = rng.choice([78, 117])
-                do_msg_before_final(rng.randrange(0, max(1, spa.log_class.begin - ln - 39)), ln)
-            elif i == 17:
-                for delta in (0.05, 0.12, 0.19, 0.02):
-                    do_msg_before_ping(delta)
-            elif i in (5, 11) or r > 0.97:
-                ln = rng.choice([40, 78, 100, 200])
-                off = rng.randrange(0, 1024 - ln)
-                # (the simulator answers in whole 39-byte segments: the bytes actually fetched may exceed `ln`)
-                # (a periodic refresh of the log section may be the one in flight: positions also lie below it)
-                outside = [p for p in list(range(0, off - 1)) + list(range(off + -(-ln // 39) * 39, 1022))
-                           if p < spa.log_class.begin - 1]
-                if not outside:
-                    continue
-                ch = [(rng.choice(outside), bytes([rng.randrange(256), rng.randrange(256)]))
-                      for _ in range(rng.choice([1, 2, 3]))]
-                do_msg_during_get(off, ln, ch)
-            elif r < 0.04 or i == 3:
-                # a value that comes back: refresh, reported change, unreported change back, the
-                # same refresh again (byte-identical to the first)
-                pos = rng.choice(hot)
-                off = max(0, pos - rng.randrange(0, 40))
-                ln = min(rng.choice([2, 39, 40, 100]), 1024 - off)
-                old = sim_struct.status_block[pos]
-                do_get(off, ln)
-                do_msg([(pos, bytes([(old + 1 + rng.randrange(255)) % 256, sim_struct.status_block[pos + 1]]))])
-                do_silent(pos, old)
-                do_get(off, ln)
-            elif r < p_msg or i == 12:
-                do_msg(_gen_message(rng, hot, big=(i == 12)))
-            elif r < p_msg + 0.18:
-                pos = rng.choice(hot)
-                do_silent(pos, (sim_struct.status_block[pos] + 1 + rng.randrange(255)) % 256)
-            else:
-                pos = rng.choice(hot)
-                off = max(0, pos - rng.randrange(0, 40))
-                do_get(off, min(rng.choice([1, 2, 39, 40, 100]), 1024 - off))
+          try:
+              r = rng.random()
+              if i == 7:
+                  # the operating system reports a transient error of an earlier send (asyncio hands it to the protocol's
+                  # error_received and leaves the endpoint open): the updates that follow are applied AND acknowledged
+                  spa._protocol.error_received(OSError(101, "Network is unreachable"))
+                  s.advance(0.05)
+              if i == 8:
+                  do_burst(rng.choice([36, 48]))
+              elif i in (14, 21):
+                  ln = rng.choice([78, 117])
+                  do_msg_before_final(rng.randrange(0, max(1, spa.log_class.begin - ln - 39)), ln)
+              elif i == 17:
+                  for delta in (0.05, 0.12, 0.19, 0.02):
+                      do_msg_before_ping(delta)
+              elif i in (5, 11) or r > 0.97:
+                  ln = rng.choice([40, 78, 100, 200])
+                  off = rng.randrange(0, 1024 - ln)
+                  # (the simulator answers in whole 39-byte segments: the bytes actually fetched may exceed `ln`)
+                  # (a periodic refresh of the log section may be the one in flight: positions also lie below it)
+                  outside = [p for p in list(range(0, off - 1)) + list(range(off + -(-ln // 39) * 39, 1022))
+                             if p < spa.log_class.begin - 1]
+                  if not outside:
+                      continue
+                  ch = [(rng.choice(outside), bytes([rng.randrange(256), rng.randrange(256)]))
+                        for _ in range(rng.choice([1, 2, 3]))]
+                  do_msg_during_get(off, ln, ch)
+              elif r < 0.04 or i == 3:
+                  # a value that comes back: refresh, reported change, unreported change back, the
+                  # same refresh again (byte-identical to the first)
+                  pos = rng.choice(hot)
+                  off = max(0, pos - rng.randrange(0, 40))
+                  ln = min(rng.choice([2, 39, 40, 100]), 1024 - off)
+                  old = sim_struct.status_block[pos]
+                  do_get(off, ln)
+                  do_msg([(pos, bytes([(old + 1 + rng.randrange(255)) % 256, sim_struct.status_block[pos + 1]]))])
+                  do_silent(pos, old)
+                  do_get(off, ln)
+              elif r < p_msg or i == 12:
+                  do_msg(_gen_message(rng, hot, big=(i == 12)))
+              elif r < p_msg + 0.18:
+                  pos = rng.choice(hot)
+                  do_silent(pos, (sim_struct.status_block[pos] + 1 + rng.randrange(255)) % 256)
+              else:
+                  pos = rng.choice(hot)
+                  off = max(0, pos - rng.randrange(0, 40))
+                  do_get(off, min(rng.choice([1, 2, 39, 40, 100]), 1024 - off))
+          except env.MachineryError as e:
+            # the history cannot go on (the client no longer behaves in a way the harness can drive): what was recorded
+            # up to here is judged; run() raises the error if that shows nothing
+            aborted = str(e)
+            break
         for x in w.take():
             ev.append({"k": "refresh", "off": x["pos"], "data": x["data"][:max(0, 1024 - x["pos"])]})
         ev.append({"k": "final", "block": list(spa.struct.status_block[:1024])})
-        return {"init": init[:1024], "ev": ev, "variant": "async", "rank": rank}
+        return {"init": init[:1024], "ev": ev, "variant": "async", "rank": rank, "aborted": aborted}
 
 
 def _history_sync(rng, n_msgs, p_msg=0.62):
@@ -401,7 +436,7 @@ def _history_sync(rng, n_msgs, p_msg=0.62):
                 break
             ch = _gen_message(rng, hot) or [(hot[0], bytes([rng.randrange(256), rng.randrange(256)]))]
             for pos, data in ch:
-                sim_struct.replace_status_block_segment(pos, data)
+                _sim_write(sim_struct, pos, data)
             nsent = len(s.sock.wire)
             s.inject(s.peer.push_changes(s.client_parms(), ch))
             for _ in range(60):              # behind queued handshake traffic and the send throttle
@@ -442,7 +477,7 @@ def _history_sync(rng, n_msgs, p_msg=0.62):
                     st_["phase"] = 2                 # well past the segment that holds `pos`: the spa changes it now
                     cur = sim_struct.status_block[pos:pos + 2]
                     ch = [(pos, bytes([(cur[0] + 1 + rng.randrange(255)) % 256, cur[1]]))]
-                    sim_struct.replace_status_block_segment(*ch[0])
+                    _sim_write(sim_struct, *ch[0])
                     box["ch"] = ch
                     box["nsent"] = len(s.sock.wire)
                     s.inject(s.peer.push_changes(s.client_parms(), ch))
@@ -491,7 +526,7 @@ def _history_sync(rng, n_msgs, p_msg=0.62):
             if r < p_msg or i == 12:
                 ch = _gen_message(rng, hot, big=(i == 12))
                 for pos, data in ch:
-                    sim_struct.replace_status_block_segment(pos, data)
+                    _sim_write(sim_struct, pos, data)
                 s.inject(s.peer.push_changes(s.client_parms(), ch))
                 s.pump(6)
                 inst = w.take()
@@ -533,14 +568,23 @@ def run(ctx):
 
     # ---- real histories ------------------------------------------------------------
     logs = []
+    del LIB_RAISED[:]
     n_hist = 6 if ctx.quick else 60
     n_msgs = 40 if ctx.quick else 120
-    for i in range(n_hist):
-        logs.append(_history_async(rng, n_msgs, rng.choice(["stable", "perm", "reverse", "perm"])))
-        logs.append(_history_sync(rng, n_msgs))
-    # one long history per stack so that the acknowledgement counter passes its wrap
-    logs.append(_history_async(rng, 230, "stable", p_msg=0.95))
-    logs.append(_history_sync(rng, 230, p_msg=0.95))
+    deferred = None
+    try:
+        for i in range(n_hist):
+            logs.append(_history_async(rng, n_msgs, rng.choice(["stable", "perm", "reverse", "perm"])))
+            logs.append(_history_sync(rng, n_msgs))
+        # one long history per stack so that the acknowledgement counter passes its wrap
+        logs.append(_history_async(rng, 230, "stable", p_msg=0.95))
+        logs.append(_history_sync(rng, 230, p_msg=0.95))
+    except env.MachineryError as e:
+        # a client that never settles may be the library's doing (a handler that replays its records for ever): the
+        # histories recorded so far are judged first; the error stands if they show nothing
+        deferred = e
+    for what in sorted(set(LIB_RAISED))[:5]:
+        ctx.violation({"clause": "install-raised-out-of-the-library", "exc": what.split(":")[0]}, {"exception": what})
     import os, json as _j
     if os.environ.get("GV_DUMP"):
         _j.dump(logs, open(os.environ["GV_DUMP"], "w"))
@@ -572,6 +616,11 @@ def run(ctx):
                               {"history_index": logs.index(lg), "matched": k, "of": len(lg["ev"]),
                                "event": {kk: vv for kk, vv in e.items() if kk != "block"},
                                "previous": [{kk: vv for kk, vv in x.items() if kk != "block"} for x in lg["ev"][max(0, k - 2):k]]})
+    if deferred is not None and not ctx.new:
+        raise deferred
+    ab = [l["aborted"] for l in logs if l.get("aborted")]
+    if ab and not ctx.new:
+        raise env.MachineryError(ab[0])
     ev.cov["statp_just_before_a_ping"] = sum(1 for l in logs for e in l["ev"] if e.get("ping_followed"))
     ev.cov["statp_before_the_final_segment_of_a_refresh"] = sum(1 for l in logs for e in l["ev"] if e.get("before_final_segment"))
     if not ev.cov["statp_just_before_a_ping"] and not ctx.new:
